@@ -102,6 +102,33 @@ def main():
                                    "from the source text (ast) of the current /repo") % "dump_c15.py",
            "(* source: %s *)" % REL]
 
+    # ---------------------------------------------------------------- inventory: nothing that can hold state
+    # module level: docstring, `import struct`, the two integer flag constants, the two classes, one function;
+    # class level: docstring, __slots__ (a list of names), methods; no global / nonlocal anywhere.  Any other
+    # binding (a shared buffer, a cache, a precompiled Struct, a class attribute) is refused.
+    for n in strip_doc(tree.body):
+        ok = (isinstance(n, ast.Import) and [a.name for a in n.names] == ["struct"] and n.names[0].asname is None) \
+            or (isinstance(n, ast.Assign) and len(n.targets) == 1 and isinstance(n.targets[0], ast.Name)
+                and n.targets[0].id in ("FLAG_REPLY", "FLAG_NO_REPLY")) \
+            or (isinstance(n, ast.ClassDef) and n.name in ("SDPPacket", "SCPPacket") and not n.decorator_list
+                and not n.keywords) \
+            or (isinstance(n, ast.FunctionDef) and n.name == "_unpack_sdp_into_packet" and not n.decorator_list)
+        need(ok, n, "module-level statement outside the modelled inventory (new module state?)")
+    for c in tree.body:
+        if isinstance(c, ast.ClassDef):
+            for n in strip_doc(c.body):
+                ok = isinstance(n, ast.FunctionDef) or (
+                    isinstance(n, ast.Assign) and len(n.targets) == 1 and is_name(n.targets[0], "__slots__")
+                    and isinstance(n.value, ast.List)
+                    and all(isinstance(e, ast.Constant) and isinstance(e.value, str) for e in n.value.elts))
+                need(ok, n, "class-level statement other than __slots__ and methods (class state?)")
+    for n in ast.walk(tree):
+        need(not isinstance(n, (ast.Global, ast.Nonlocal)), n, "global / nonlocal statement")
+    slots = {c.name: [e.value for n in c.body if isinstance(n, ast.Assign) for e in n.value.elts]
+             for c in tree.body if isinstance(c, ast.ClassDef)}
+    need(slots.get("SDPPacket") == HEADER_FIELDS + ["data"], tree, "SDPPacket.__slots__ are the ten header fields and data")
+    need(slots.get("SCPPacket") == ["cmd_rc", "seq", "arg1", "arg2", "arg3"], tree, "SCPPacket.__slots__")
+
     # ---------------------------------------------------------------- module constants
     consts = {}
     for n in tree.body:
